@@ -451,6 +451,50 @@ def r20h(ctx, rep, cr):
     rep.floor('R20h', 'limit tests on a decoded length in frame readers', n, 2)
 
 
+def r20i(ctx, rep):
+    rep.rule('R20i', 'a count read from the input does not size an allocation: in the streaming readers of tensor_compress (streaming.rs, '
+                     'streaming_tt.rs) no Vec::with_capacity / vec![_; n] / reserve is sized by a value that comes from the reader\'s trailer or '
+                     'header (entry_count, vector_count, …) unless it passed a min / clamp or a must-pass comparison with a bound. The '
+                     'trailer is untrusted: one flipped high bit turns a well-formed file into a `capacity overflow` panic or an '
+                     'allocation failure before a single entry is read, where the decoder used to return Err')
+    cr = ctx.crate('tensor_compress')
+    n = 0
+    ALLOCS = re.compile(r'Vec::<T(, A)?>::(with_capacity|reserve|reserve_exact|resize)$|vec::from_elem')
+    for name, f in sorted(cr.fns.items()):
+        if not (f.file.endswith('streaming.rs') or f.file.endswith('streaming_tt.rs')):
+            continue
+        defs = None
+        for c in A.calls(f):
+            if not (ALLOCS.search(c.resolved) or ALLOCS.search(c.generic)):
+                continue
+            defs = defs or A.Defs(f)
+            for a in c.args:
+                if a[0] == 'k':
+                    continue
+                sl = A.backward_slice(f, [a], defs)
+                src = sorted(lib.short(x) for x in sl.calls if re.search(r'::(entry_count|vector_count|count|len_hint)$', x) and 'Reader' in x) + \
+                    sorted(x.split('::')[-1] for x in sl.fields if re.search(r'(Trailer|Header)\.\w*(count|len|size)\w*$', x))
+                if not src:
+                    continue
+                n += 1
+                rep.analysed(f)
+                bounded = any(re.search(r'::(min|clamp)$', x) for x in sl.calls)
+                if not bounded:
+                    for (a_, s_) in A.must_pass_edges(f, c.bb):
+                        l = lib.switch_local(f, a_)
+                        d = A.single_def(defs, l) if l is not None else None
+                        if d and d[2] == 'st' and d[3][1][0] == 'bin' and d[3][1][1] in ('Gt', 'Lt', 'Ge', 'Le'):
+                            if any((A.backward_slice(f, [o], defs).locals & sl.locals) for o in d[3][1][2:4] if o[0] != 'k'):
+                                bounded = True
+                if bounded:
+                    rep.holds('R20i', f, 'alloc@%d' % c.line, 'the count is bounded first')
+                else:
+                    rep.violation('R20i', f, 'alloc-sized-by-input-count', f.loc(c.line),
+                                  '%s is sized by %s, a count taken from the input with no bound: a damaged trailer makes the reader panic or '
+                                  'abort on allocation instead of returning an error' % (c.resolved.split('::')[-1], ', '.join(src)))
+    rep.notes.append('R20i: allocations sized by an input count in the streaming readers = %d (none on the development tree: the readers collect)' % n)
+
+
 def run(ctx, rep):
     cr = ctx.crate('tensor_chain')
     r20a(ctx, rep, cr)
@@ -461,3 +505,4 @@ def run(ctx, rep):
     r20f(ctx, rep, cr)
     r20g(ctx, rep)
     r20h(ctx, rep, cr)
+    r20i(ctx, rep)
